@@ -541,3 +541,27 @@ Definition pg_state_eqb (st : pg_state) (universe : list pg_hid) (items : list (
   list_eqb (opt_eqb pg_hstate_eqb) (map (fun k => pg_find k (st_items st)) universe) items &&
   pg_ostr_eqb (st_purpose st) purpose &&
   forallb (fun kv => pg_mem (fst kv) universe) (st_items st).
+
+(* ------------------------------------------------------------------ the property's vocabulary on stored records *)
+Definition pg_rec_finished (d : option pg_srec) : bool :=
+  match d with Some r => pg_or (s_success r) false || pg_or (s_failure r) false | None => false end.
+
+Definition pg_rec_retries (d : option pg_srec) : Z :=
+  match d with Some r => pg_or (s_retries r) 0 | None => 0 end.
+
+(* recorded as due later than now *)
+Definition pg_rec_sleeping (now : Z) (d : option pg_srec) : bool :=
+  negb (pg_rec_finished d) &&
+  match d with Some r => match s_delayed r with Some t => now <? t | None => false end | None => false end.
+
+(* ------------------------------------------------------------------ the in-memory part (inventory.ResourceMemory) *)
+Record pg_memory := mkPgMem { m_listed : bool; m_fho : bool }.
+
+(* process_changing_cause(memory=...) : the memory is only written, never read *)
+Definition pg_process (mem : pg_memory) (body : list (pg_hid * pg_srec)) (owned : list pg_hid) (reason : pg_reason)
+           (selected : list pg_hid) (lc : pg_lifecycle) (now : Z) (new_differs : bool) (orc : pg_oracle)
+  : pg_result * pg_memory :=
+  let r := pg_pipeline body owned reason selected lc now new_differs orc in
+  (r, mkPgMem (m_listed mem) (m_fho mem || r_fho r)).
+
+Definition pg_pure (orc : pg_oracle) : Prop := forall k n, e_stores (snd (orc k n)) = [].
